@@ -211,7 +211,7 @@ package gohbase
 //@   loop "for _, cAndR := range cAndRs" invariant sbFrame(res, athead("for", batch), rpcToRes, len(res)) && sbOwn(res, old(batch), len(res))
 //@   loop "for _, cAndR := range cAndRs" invariant doneGroups(cAndRs, res, rpcToRes, idx, allOK) && retriesOK(retries, res, old(batch), rpcToRes, len(res))
 //@   loop "for _, cAndR := range cAndRs" invariant allOK ==> !unretryableErrorSeen && athead("for", allOK)
-//@   loop "for _, cAndR := range cAndRs" invariant athead("for", unretryableErrorSeen) ==> unretryableErrorSeen
+//@   loop "for _, cAndR := range cAndRs" invariant[C07] athead("for", unretryableErrorSeen) ==> unretryableErrorSeen
 //@   loop "for _, cAndR := range cAndRs" invariant untouched(cAndRs, res, rpcToRes, len(res), idx)
 //@   loop "for _, cAndR := range cAndRs" invariant forall(u, p, idx <= u && u < len(cAndRs) && 0 <= p && p < len(cAndRs[u].rpcs), ghostat("retrymark", cAndRs[u].rpcs[p]) != ghost("round"))
 //@   loop "for _, cAndR := range cAndRs" invariant carOK(cAndRs, rpcByClient) && groupsOK(rpcByClient, athead("for", batch), len(athead("for", batch))) && groupsOrdered(rpcByClient)
@@ -483,6 +483,9 @@ package gohbase
 //@   ensures[C14] s.curRegionScannerID == 18446744073709551615
 //@   ensures[C14] ghost("closereq") == old(ghost("closereq")) + ite(old(s.curRegionScannerID) != 18446744073709551615 && !s.rpc.IsClosing(), 1, 0)
 //@   at call NewScanRange#1 ghost closereq == ghost("closereq") + 1
+// the close request does not inherit the scan's own context (which may be the reason the scan ends): its context is live
+// when the request is built, so it can still be sent after a cancellation
+//@   at call NewScanRange#1 assert[C14] ghostat("ctxdone", arg0) == 0
 // (NewScanRange fails only when an option is rejected; ScannerID, CloseScanner and NumberOfRows are valid for scans)
 //@   at call panic#1 assume-shared err == nil
 
